@@ -30,7 +30,7 @@ type Spec struct {
 	Engines    []string            `json:"engines"`    // engine/<name> mounted at zzverif/<name>
 	Instrument map[string][]string `json:"instrument"` // package dir (repo relative) -> files ("*" = all non-test)
 	InstOpts   instrument.Options  `json:"inst_opts"`
-	Args       map[string][]string `json:"args"`       // per tier
+	Args       map[string][]string `json:"args"` // per tier
 	Env        map[string]string   `json:"env"`
 	BuildFlags []string            `json:"build_flags"`
 }
